@@ -100,6 +100,13 @@ def cases(tier, seed):
             yield ['kind', k, rep]
     yield ['import_error', None, None]
     yield ['two_classes_subtests', None, None]
+    # --xml together with --buffer: what a failing test wrote before it failed
+    for sub in (list(range(0, 32)), [0x7f, 0x85, 0x1b, 0x08], [0xfffe, 0xffff, 0xd800]):
+        for mode in ('seq', 'j2'):
+            yield ['buffered', sub, mode]
+    # a RELATIVE --xml directory and a test that changes the working directory
+    for mode in ('seq', 'j2'):
+        yield ['relxml', mode, None]
     # layers that run in subprocesses write their own report files into the
     # same directory: nothing may be lost or overwritten
     for shape in ('N1B2C1', 'A2B1i', 'A1B1C1d', 'U1A2'):
@@ -324,6 +331,34 @@ def structure_viol(spec, res, files, rep, why):
     return out
 
 
+def run_relxml(mode):
+    """Real processes: --xml reports (relative) and a test that leaves the
+    working directory changed."""
+    import subprocess
+    from vt import env
+    from vt import worldrt
+    root = env.scratch('vtrelxml')
+    viol = []
+    try:
+        spec = {'layers': [{'n': 'A', 'b': [], 'k': 'c', 'h': ['setUp', 'tearDown']}],
+                'tests': [{'n': 'q0', 'l': None, 's': 'chdir'}, {'n': 'q1', 'l': 'A', 's': 'chdir'},
+                          {'n': 'q2', 'l': 'A', 's': 'fail'}]}
+        worldrt.write_disk(spec, root)
+        cmd = [env.PY, '-m', 'zope.testrunner', '--path', root, '--xml', 'reports'] + (['-j2'] if mode == 'j2' else [])
+        p = subprocess.run(cmd, env=env.child_env({'VT_SCRATCH_RUN': root}), stdout=subprocess.PIPE, stderr=subprocess.STDOUT,
+                           stdin=subprocess.DEVNULL, timeout=120, cwd=root)
+        rd = os.path.join(root, 'reports', 'testreports')
+        files = sorted(os.listdir(rd)) if os.path.isdir(rd) else []
+        want = {'vtw.tests.T_q0.xml', 'vtw.tests.T_q1.xml', 'vtw.tests.T_q2.xml'}
+        if set(files) != want:
+            viol.append({'clause': 'no_report', 'sig': {'part': 'relxml', 'what': mode, 'strno': None},
+                         'detail': '--xml reports (relative to the start directory), tests that chdir, %s: report files under <start>/reports/testreports: %s, expected %s\n%s' % (mode, files, sorted(want), p.stdout.decode('utf-8', 'replace')[-600:])})
+    finally:
+        env.rmtree(root)
+    return {'evals': 1, 'nontrivial': 1, 'violations': viol, 'outcome': 'relxml', 'nogate': True,
+            'counters': {'runner_executions': 1}}
+
+
 def run_case(case):
     kind, a, b = case
     viol = []
@@ -415,6 +450,17 @@ def run_case(case):
             vs0 = [('harness_no_children', why)]
         else:
             vs0 = []
+    elif kind == 'buffered':
+        rep = 1
+        text = 'out:' + ''.join(chr(c) for c in a if not 0xd800 <= c <= 0xdfff) + ':end\n'
+        spec = {'layers': [{'n': 'A', 'b': [], 'k': 'c', 'h': ['setUp', 'tearDown']}],
+                'tests': [{'n': 'q0', 'l': 'A', 's': 'fail', 'w': [['o', text, False], ['e', text, False]]},
+                          {'n': 'q1', 'l': 'A', 's': 'error', 'ws': [['o', text, False]]},
+                          {'n': 'q2', 'l': None, 's': 'pass', 'w': [['o', text, False]]}]}
+        why = '--buffer, tests writing code points %s before failing, %s' % (['U+%04X' % c for c in a[:6]], b)
+        res, files = run_xml(spec, ['--buffer'] + (['-j2'] if b == 'j2' else []))
+    elif kind == 'relxml':
+        return run_relxml(a)
     elif kind == 'two_classes_subtests':
         rep = 1
         spec = {'layers': [], 'tests': [{'n': 'q0', 'l': None, 's': 'sub:2,1,0'},
@@ -441,7 +487,7 @@ def run_case(case):
         spec = {'layers': [], 'tests': [{'n': 'q0', 'l': None, 's': 'pass'}], 'bad_modules': ['vtw.broken']}
         why = 'import error'
         res, files = run_xml(spec)
-    sig = {'part': kind, 'what': (str(a) if kind in ('kind', 'dkind', 'modes') else (b if kind == 'str' else ''))}
+    sig = {'part': kind, 'what': (str(a)[:40] if kind in ('kind', 'dkind', 'modes', 'buffered') else (b if kind == 'str' else ''))}
     vs = check_files(res, files, why)
     if kind in ('modes', 'two_classes_subtests'):
         vs += vs0
